@@ -490,11 +490,40 @@ pub fn colon_colon_completions(
             })
             .ok()?;
 
+    // The environment of a project also holds the exports of packages this file cannot name:
+    // packages that are only reachable through the imports of another package, or that only a
+    // sibling file imports. The compiler rejects a path rooted in such a package, so it has no
+    // completions.
+    if !path_root_is_nameable(&file, &genv, &segments[0]) {
+        return Some(Vec::new());
+    }
+
     let mut items = colon_colon_items_for_namespace(&genv, &namespace);
     items.retain(|item| position_admits(&path_node, item));
     items.sort_by(|a, b| a.name.cmp(&b.name));
     items.retain(|item| item.name.starts_with(&prefix));
     Some(items)
+}
+
+/// Whether a path that starts with `root` can resolve in `file`: `root` is the file's own
+/// package, a package the file imports, or a type or trait of the file's package. This is the
+/// rule name resolution applies to package-qualified paths (imports count per file).
+fn path_root_is_nameable(file: &cst::cst::File, genv: &GlobalTypeEnv, root: &str) -> bool {
+    let own_package = file
+        .package_decl()
+        .and_then(|decl| decl.name_token())
+        .is_some_and(|name| name.text() == root);
+    let imported = file
+        .import_decls()
+        .filter_map(|decl| decl.name_token())
+        .any(|name| name.text() == root);
+    if own_package || imported || root == "Builtin" {
+        return true;
+    }
+    let ident = tast::TastIdent(root.to_string());
+    genv.enums().contains_key(&ident)
+        || genv.structs().contains_key(&ident)
+        || genv.trait_env.trait_defs.contains_key(root)
 }
 
 /// Whether `item` can stand where `path` stands. A path written as a type names a type, the
